@@ -27,6 +27,20 @@ def main():
             na.append(dict(property_id=pid, reason=NOT_BUILT.get(pid, "model, theorems and correspondence for this property are not built yet; no other technique is substituted")))
             continue
         mod = importlib.import_module("props." + pid.lower())
+        import re
+        partial, stated = [], []
+        for m in mod.MODULES:
+            f = os.path.join(VERIF, "lean", m.replace(".", "/") + ".lean")
+            if os.path.exists(f):
+                src = re.sub(r"/-.*?-/", "", open(f).read(), flags=re.S)
+                src = re.sub(r"--.*", "", src)
+                partial += re.findall(r"^\s*theorem\s+(%s_\w*_partial\w*)" % pid, src, re.M)
+                stated += re.findall(r"^\s*def\s+(%s_\w*statement\w*)" % pid, src, re.M)
+        pnote = ""
+        if partial or stated:
+            pnote = (" PARTIAL: the full statements kept visible as %s are not proved in full; proved with extra hypotheses (named, "
+                     "complement of a recorded finding or an unfinished induction): %s - the clauses not proved are covered on every run by "
+                     "the correspondence and the oracle only." % (", ".join(stated) or "-", ", ".join(partial) or "-"))
         checks.append({
             "property_id": pid,
             "quick_cmd": "%s harness/run.py %s --tier quick" % (PY, pid),
@@ -39,7 +53,7 @@ def main():
                 "text": getattr(mod, "LEVEL_TEXT", "Lean 4 theorems about an executable model of the code, re-checked by `lake build` and an axiom audit on every run; the model is tied to /repo by a per-run differential correspondence and regenerated tables; an independent oracle on the real code turns any break into a replay"),
                 "design_ref": "DESIGN.md section 3 " + pid,
             },
-            "level_note": getattr(mod, "LEVEL_NOTE", "trusted: Lean kernel + propext/Classical.choice/Quot.sound, the hand-written model and specs, extract.py, the wire codec; CPython/cwcwidth/blessed/OS are modelled not verified"),
+            "level_note": getattr(mod, "LEVEL_NOTE", "trusted: Lean kernel + propext/Classical.choice/Quot.sound, the hand-written model and specs, extract.py, the wire codec; CPython/cwcwidth/blessed/OS are modelled not verified") + pnote,
             "technique": getattr(mod, "TECHNIQUE", "Lean 4 machine-checked proof over a hand-written executable model + per-run model/implementation correspondence"),
         })
     manifest = {
